@@ -396,6 +396,20 @@ def has_cycle(game):
     return False
 
 
+def depends_on_cycle(game, start):
+    """Does the part of the game reachable from `start` contain a directed cycle through a non-absorbing
+    state?  If not, value iteration from below computes start's values exactly (after at most depth sweeps)."""
+    part = forward_reachable(game, start)
+    tl = {s: [t for _, t in (game["transition_list"][s] or [])] for s in part}
+    for c in _sccs(sorted(part), lambda s: tl[s]):
+        if len(c) > 1:
+            return True
+        s = c[0]
+        if s in tl[s] and not all(t == s for t in tl[s]):
+            return True
+    return False
+
+
 def forward_reachable(game, start=0):
     seen = {start}
     stack = [start]
